@@ -176,7 +176,7 @@ func c14Txn(c *Ctx, r *Report, eng *effEngine, fn *ssa.Function, idem map[string
 		if ef.target.kind != rParam || ef.target.idx != 0 {
 			if ef.target.kind == rGlobal {
 				k := fmt.Sprintf("%s: %s writes package variable %s", fnName(fn), fnName(ef.fn), ef.target.name)
-				r.check("C14.W2", k, ef.pos, false, "package-level state written during a load is not restored")
+				r.flag("C14.W2", k, ef.pos, "package-level state written during a load is not restored")
 			}
 			continue
 		}
